@@ -852,6 +852,24 @@ def callFails (W : World) (fuel : Nat) (sg : Sig) (o : Opts) (args : List Val) (
   args.zipIdx.any (fun it => posFailing W fuel sg o it == some i) ||
   failsAloneX W fuel sg.decl (givenPos sg args) o kwargs i
 
+/-- an output property as a field of its own (like `varField`): its annotation, its policy -/
+def propField (p : PropDecl) (o : Opts) : FieldDecl :=
+  { name := p.name, ty := p.ty, required := false, default := none, onError := some (p.onError.getD o.invalidValues) }
+
+/-- "output property `p` fails on its own": its source is fine (a constant, or a field that parses alone) and the
+computed value is rejected by the return annotation under the `throw` policy -/
+def propFails (W : World) (fuel : Nat) (decl : List FieldDecl) (o : Opts) (data : Data) (p : PropDecl) : Bool :=
+  let attr : Option Val :=
+    match p.src with
+    | .const v => some v
+    | .field n =>
+      match runItems W fuel (declOf decl n) [] .ff o (dataOf data n) with
+      | .ok res => res.lookup n
+      | .error _ => none
+  match attr with
+  | none => false
+  | some a => isError (runItems W fuel [propField p o] [] .ff o [(p.name, a)])
+
 /-- the errors of the whole mapping an (uncapped) collecting parse reports: they name no item -/
 def globalReports (rec : P) (m : Mode) (o : Opts) (decl : List FieldDecl) (ex : List String) (data : Data) : List Err :=
   (match o.maxParams with
